@@ -73,7 +73,13 @@ GivenFracs == << <<1, 15>>, <<9, 10>>, <<3, 2>> >>
 BulkCharge(g) == IF g[1] < g[2] THEN <<g[2] - g[1], g[2]>> ELSE <<0, 1>>
 BulkNonNegative == \A i \in DOMAIN GivenFracs : BulkCharge(GivenFracs[i])[1] >= 0 /\ BulkCharge(GivenFracs[i])[1] <= BulkCharge(GivenFracs[i])[2]
 
-EmitCase == PrintT(ToJson([given |-> [i \in DOMAIN GivenFracs |-> [g |-> GivenFracs[i], bulk |-> BulkCharge(GivenFracs[i])]], span |-> span, pat |-> a, sexp |-> [z \in 1..Z |-> SExp(z - 1)], aexp |-> [z \in 1..Z |-> AExp(z)], logw |-> [z \in 1..(Z + 1) |-> LogW(z - 1)], Z |-> Z, S |-> [z \in 1..Z |-> S(z - 1)], alpha |-> [z \in 1..Z |-> Alpha(z)], cx |-> [z \in 1..Z |-> Cx(z)],
+\* ---- densities from an element density: n_z = n_element x fraction_z for any element density - a trace impurity (1/40 of the
+\* electron density) as well as a weakly ionised gas with far more atoms than electrons (40 n_e): the element density is a
+\* scale only, it does not enter the balance (the library merely warns that such a plasma is not neutral)
+ElementPerElectron == << <<1, 40>>, <<40, 1>> >>
+ElementDensityIsAScale == \A i \in DOMAIN ElementPerElectron : ElementPerElectron[i][1] > 0 /\ ElementPerElectron[i][2] > 0
+
+EmitCase == PrintT(ToJson([eldens |-> ElementPerElectron, given |-> [i \in DOMAIN GivenFracs |-> [g |-> GivenFracs[i], bulk |-> BulkCharge(GivenFracs[i])]], span |-> span, pat |-> a, sexp |-> [z \in 1..Z |-> SExp(z - 1)], aexp |-> [z \in 1..Z |-> AExp(z)], logw |-> [z \in 1..(Z + 1) |-> LogW(z - 1)], Z |-> Z, S |-> [z \in 1..Z |-> S(z - 1)], alpha |-> [z \in 1..Z |-> Alpha(z)], cx |-> [z \in 1..Z |-> Cx(z)],
                            donor |-> Donor(dn), dq |-> dq, w |-> IF Small THEN [z \in 1..(Z + 1) |-> Wt(z - 1)] ELSE <<>>,
                            total |-> IF Small THEN Total ELSE 0, zw |-> IF Small THEN SumZW(Z) ELSE 0]))
 =============================================================================
